@@ -55,11 +55,15 @@ def r1(ctx):
             if isinstance(a, (ast.FunctionDef, ast.AsyncFunctionDef)):
                 break
         # keep only tests that talk about statuses
-        st_tests = [t for t in conj if "status" in unparse(t) and "job_allocation :=" not in unparse(t)]
+        prevs = [n.target.id for n in f.body_nodes() if isinstance(n, ast.NamedExpr) and unparse(n.value).endswith(".status")]
+        prevs += [unparse(n.targets[0]) for n in f.body_nodes() if isinstance(n, ast.Assign) and isinstance(n.targets[0], ast.Name) and unparse(n.value).endswith(".status")]
+        ctx.require(bool(prevs), "C11.R1: capture of the previous status not found")
+        PREV = prevs[0]
+        st_tests = [t for t in conj if ("status" in unparse(t) or PREV in unparse(t)) and "job_allocation :=" not in unparse(t) and "allocation :=" not in unparse(t)]
         ctx.require(bool(st_tests), "C11.R1: release is not guarded by any status test")
         guard = ast.BoolOp(op=ast.And(), values=st_tests) if len(st_tests) > 1 else st_tests[0]
         try:
-            table = status_table(p, guard, {"previous_status": "previous_status", "status": "status"})
+            table = status_table(p, guard, {PREV: PREV, "status": "status"})
         except Unfoldable as e:
             ctx.require(False, f"C11.R1: release guard is not a finite-domain predicate over statuses: {e}")
         bad = []
@@ -78,8 +82,8 @@ def r1(ctx):
         ctx.observe("C11: the release guard also releases on RUNNING->FIREABLE (out-of-protocol transition; not enforced)")
         # previous_status is captured before the overwrite
         g = f.cfg
-        caps = [n for n in g.nodes.values() if any(isinstance(x, ast.NamedExpr) and x.target.id == "previous_status" for x in n.walk())
-                or (n.kind == "stmt" and isinstance(n.ast, ast.Assign) and unparse(n.ast.targets[0]) == "previous_status")]
+        caps = [n for n in g.nodes.values() if any(isinstance(x, ast.NamedExpr) and x.target.id == PREV for x in n.walk())
+                or (n.kind == "stmt" and isinstance(n.ast, ast.Assign) and unparse(n.ast.targets[0]) == PREV)]
         writes = [n for n in g.nodes.values() if n.kind == "stmt" and isinstance(n.ast, ast.Assign)
                   and isinstance(n.ast.targets[0], ast.Attribute) and n.ast.targets[0].attr == "status"]
         ctx.require(bool(caps) and bool(writes), "C11.R1: previous status capture / status write not found")
@@ -88,7 +92,7 @@ def r1(ctx):
         cap_src = []
         for n in caps:
             for x in n.walk():
-                if isinstance(x, ast.NamedExpr) and x.target.id == "previous_status":
+                if isinstance(x, ast.NamedExpr) and x.target.id == PREV:
                     cap_src.append(unparse(x.value))
             if n.kind == "stmt" and isinstance(n.ast, ast.Assign):
                 cap_src.append(unparse(n.ast.value))
